@@ -136,9 +136,12 @@ def analyze(s0, s1, designated):
             near = [q for q in new_payload_roots if q not in used_roots
                     and _content_equal(snap.subtree(s1, q), sig0)]
             if near:
+                sd = snap.sig_diff(sig0, snap.subtree(s1, near[0]))
                 o.update(state='ALTERED', payload=near[0],
-                         diff=snap.fmt_diff(snap.sig_diff(
-                             sig0, snap.subtree(s1, near[0])), 6))
+                         diff=snap.fmt_diff(sd, 6),
+                         only_symlink_mtime=all(
+                             x is not None and y is not None and x[0] == 'l'
+                             and x[:6] == y[:6] for k, x, y in sd))
             else:
                 o.update(state='LOST')
         else:
